@@ -135,7 +135,7 @@ CASES += [
 
 CASES += [
     m("refused first addition leaves the storage prepared (the repaired defect)", "C19-M",
-      "        except Exception:\n            if not initialized_saved:\n                self._d__data = storage_saved\n                self.storage_initialized = initialized_saved\n                self.storage_resolution = resolution_saved\n            raise\n",
+      "        except Exception:\n            if not initialized_saved:\n                if had_storage:\n                    self._d__data = storage_saved\n                elif hasattr(self, \"_d__data\"):\n                    del self._d__data\n                self.storage_initialized = initialized_saved\n                self.storage_resolution = resolution_saved\n            raise\n",
       ""),
     m("roll-back forgets the resolution", "C19-M",
       "                self.storage_resolution = resolution_saved\n            raise\n", "            raise\n"),
@@ -161,4 +161,14 @@ CASES += [
         (_TW19, _SD19, "            (self.yaxis.length == data.shape[1])):\n            self.data = numpy.array(data, dtype=numpy.float32)\n", 1)]},
     {"name": "spectrum stored as a copy", "kind": "twin", "edits": [
         (_TW19, _SD19, "            (self.yaxis.length == data.shape[1])):\n            self.data = numpy.array(data)\n", 1)]},
+]
+
+_T219 = "quantarhei/spectroscopy/twod2.py"
+CASES += [
+    {"name": "roll-back writes the default where no storage attribute existed (the repaired defect)", "kind": "mutant", "rule": "C19-M", "edits": [
+        (_T219, "                if had_storage:\n                    self._d__data = storage_saved\n                elif hasattr(self, \"_d__data\"):\n                    del self._d__data\n",
+                "                self._d__data = storage_saved\n", 1)]},
+    {"name": "roll-back removes the attribute with delattr", "kind": "twin", "edits": [
+        (_T219, "                elif hasattr(self, \"_d__data\"):\n                    del self._d__data\n",
+                "                elif hasattr(self, \"_d__data\"):\n                    delattr(self, \"_d__data\")\n", 1)]},
 ]
